@@ -638,3 +638,98 @@ SUBS = [
         budget={"quick": 5000, "thorough": 150000},
         required=["kind:" + k for k in sorted(set(CHAIN_KINDS))] + ["chain_valid", "chain_invalid"]),
 ]
+
+
+# ------------------------------------------------- header object history (added by the lead)
+# ONE Block object: header fields are edited in place between queries (a nonce-grinding loop, an in-place
+# tamper test): hash / id / serialize / check_pow / target and HeadersMessage.is_valid must always describe
+# the CURRENT fields, whatever was asked before.
+
+HDR_FIELDS = ["nonce", "timestamp", "bits", "version", "prev_block", "merkle_root"]
+HDR_QUERIES = ["hash", "id", "serialize", "check_pow", "target", "chain"]
+
+
+def hdr_hist_strategy(tier):
+    op = st.one_of(
+        st.tuples(st.just("q"), st.sampled_from(HDR_QUERIES), st.integers(0, 2**32 - 1)),
+        st.tuples(st.just("e"), st.sampled_from(HDR_FIELDS), st.integers(0, 2**32 - 1)),
+    )
+    return st.fixed_dictionaries({
+        "version": st.integers(0, 2**31 - 1), "prev": gen.b32(), "root": gen.b32(),
+        "time": st.integers(0, 2**32 - 1), "nonce": st.integers(0, 2**32 - 1),
+        "easy": st.booleans(), "other": gen.b32(),
+        "ops": st.lists(op, min_size=3, max_size=10),
+    })
+
+
+def check_hdr_hist(case, ctx):
+    f = {"version": case["version"], "prev_block": bytes(case["prev"]), "merkle_root": bytes(case["root"]),
+         "timestamp": case["time"], "bits": 0x207FFFFF if case["easy"] else 0x1D00FFFF, "nonce": case["nonce"]}
+
+    def raw():
+        return p2p.header80(f["version"], f["prev_block"], f["merkle_root"], f["timestamp"], f["bits"], f["nonce"])
+
+    blk = must(Block.parse_header, "hdrhist/parse", BytesIO(raw()))
+    queried = edited_after = requery = False
+    for op in case["ops"]:
+        if op[0] == "e":
+            _, field, v = op
+            if queried:
+                edited_after = True
+            ctx.label("edit:" + field)
+            if field == "nonce":
+                f["nonce"] = v
+                blk.nonce = struct.pack("<I", v)
+            elif field == "timestamp":
+                f["timestamp"] = v
+                blk.timestamp = v
+            elif field == "bits":
+                f["bits"] = 0x207FFFFF if f["bits"] != 0x207FFFFF else 0x1F00FFFF
+                blk.bits = struct.pack("<I", f["bits"])
+            elif field == "version":
+                f["version"] = v % 2**31
+                blk.version = f["version"]
+            elif field == "prev_block":
+                f["prev_block"] = bytes(case["other"]) if f["prev_block"] != bytes(case["other"]) else bytes(32)
+                blk.prev_block = f["prev_block"][::-1]  # Block keeps display order, the wire has it reversed
+            else:
+                f["merkle_root"] = hashlib.sha256(f["merkle_root"]).digest()
+                blk.merkle_root = f["merkle_root"][::-1]
+            continue
+        _, what, v = op
+        if queried and edited_after:
+            requery = True
+        queried = True
+        tag = "_after_edit" if edited_after else ""
+        r = raw()
+        want_hash = merkle.sha256d(r)[::-1]
+        if what == "hash":
+            require(blk.hash() == want_hash, "hdrhist/stale_or_wrong_hash" + tag)
+        elif what == "id":
+            require(blk.id() == want_hash.hex(), "hdrhist/stale_or_wrong_id" + tag)
+        elif what == "serialize":
+            require(blk.serialize() == r, "hdrhist/stale_or_wrong_serialisation" + tag)
+        elif what == "check_pow":
+            require(bool(blk.check_pow()) == merkle.check_pow(r), "hdrhist/stale_or_wrong_check_pow" + tag,
+                    f"bits={f['bits']:#x}")
+            ctx.label("pow_pass" if merkle.check_pow(r) else "pow_fail")
+        elif what == "target":
+            require(blk.target() == merkle.set_compact(f["bits"])[0], "hdrhist/stale_or_wrong_target" + tag)
+        elif what == "chain":
+            # a two-header chain: this header followed by a child that commits to its CURRENT hash
+            child_fields = dict(f, prev_block=want_hash[::-1], nonce=v)
+            child_raw = p2p.header80(child_fields["version"], child_fields["prev_block"], child_fields["merkle_root"],
+                                     child_fields["timestamp"], child_fields["bits"], child_fields["nonce"])
+            child = Block.parse_header(BytesIO(child_raw))
+            want = merkle.chain_valid([r, child_raw])
+            st_, got = attempt(lambda: HeadersMessage([blk, child]).is_valid())
+            require(st_ == "ok" and bool(got) == want, "hdrhist/stale_or_wrong_chain_validity" + tag,
+                    f"want={want} got={st_}:{got!r}")
+    ctx.nontrivial(requery)
+    ctx.label("query_edit_query" if requery else "plain")
+
+
+SUBS.append(Sub("header_object_history", check_hdr_hist, strategy=hdr_hist_strategy, stateful=True,
+                budget={"quick": 6000, "thorough": 200000},
+                required=["edit:" + x for x in HDR_FIELDS] + ["query_edit_query", "pow_pass", "pow_fail"],
+                nontrivial_rule="history in which one header object is queried, edited in place and queried again"))
